@@ -66,6 +66,9 @@ Printable == {TInt, TBool, TStr, TFlt, TArr(TInt), TTup(<<TInt, TBool>>), TOpt(T
 ValueTypes == {TInt, TInt, TInt, TBool, TBool, TStr, TFlt, TArr(TInt), TTup(<<TInt, TBool>>), TTup(<<TInt, TStr>>),
                TPoint, TShape, TOpt(TInt)}
 
+\* the same environment with every variable immutable: expressions generated under it have no effect on variables
+Frozen(env) == [i \in 1..Len(env) |-> [env[i] EXCEPT !.mut = FALSE]]
+
 RECURSIVE GenE(_, _, _, _), GenArgs(_, _, _, _, _)
 GenArgs(tys, env, fns, d, i) == IF i > Len(tys) THEN <<>> ELSE <<GenE(tys[i], env, fns, d)>> \o GenArgs(tys, env, fns, d, i + 1)
 
@@ -110,6 +113,10 @@ GenE(ty, env, fns, d) ==
                     [p |-> [k |-> "var", c |-> "none", ps |-> <<>>], e |-> GenE(TInt, env, fns, d - 1)] >>]
            ELSE IF c = 11 /\ LamsRet(env, TInt) # {} THEN
                 LET l == env[Pick(LamsRet(env, TInt))] IN Call(l.n, GenArgs(l.ty.ps, env, fns, d - 1, 1))
+           ELSE IF c = 12 /\ MutOf(env, TInt) # {} /\ Chance(1, 2) THEN
+                \* an operand with a side effect on a variable: makes the evaluation order of operands observable
+                [k |-> "blk", ss |-> <<Assign(V(env[Pick(MutOf(env, TInt))].n), Pick({"=", "+=", "*="}), GenE(TInt, env, fns, d - 1)),
+                                       ExprS(GenE(TInt, env, fns, d - 1))>>]
            ELSE IF c = 12 THEN
                 [k |-> "blk", ss |-> <<Let("bk", GenE(TInt, env, fns, d - 1)),
                                        ExprS(Bin(Pick({"+", "*", "-"}), V("bk"), GenE(TInt, env, fns, d - 1)))>>]
@@ -190,13 +197,13 @@ Gen1(env, ctr, fns, ctx) ==
   ELSE IF c = 15 /\ VarsOf(env, TArr(TInt)) # {} THEN
      LET a == V(env[Pick(VarsOf(env, TArr(TInt)))].n)  w == Pick(1..4) IN
      [ss |-> IF w = 1 THEN <<ExprS(MCall(a, "push", <<GenE(TInt, env, fns, 2)>>))>>
-             ELSE IF w = 2 THEN <<Assign([k |-> "idx", a |-> a, i |-> GenE(TInt, env, fns, 0)], Pick({"=", "+="}), GenE(TInt, env, fns, 2))>>
+             ELSE IF w = 2 THEN <<Assign([k |-> "idx", a |-> a, i |-> GenE(TInt, env, fns, 0)], Pick({"=", "+="}), GenE(TInt, Frozen(env), fns, 2))>>
              ELSE IF w = 3 THEN <<If(Bin(">", MCall(a, "len", <<>>), I(0)), <<Let(Name("pv", ctr), MCall(a, "pop", <<>>))>>, <<>>)>>
              ELSE <<PrintS(a)>>,
       env |-> env, ctr |-> ctr]
   ELSE IF c = 16 /\ VarsOf(env, TPoint) # {} THEN
      LET p == V(env[Pick(VarsOf(env, TPoint))].n) IN
-     [ss |-> <<Assign([k |-> "fld", o |-> p, f |-> Pick({"x", "y"})], Pick({"=", "+=", "*="}), GenE(TInt, env, fns, 2))>>, env |-> env, ctr |-> ctr]
+     [ss |-> <<Assign([k |-> "fld", o |-> p, f |-> Pick({"x", "y"})], Pick({"=", "+=", "*="}), GenE(TInt, Frozen(env), fns, 2))>>, env |-> env, ctr |-> ctr]
   ELSE IF c = 17 /\ VarsOf(env, TShape) # {} THEN     \* match used as a statement, arms are blocks
      LET s == V(env[Pick(VarsOf(env, TShape))].n) IN
      [ss |-> <<ExprS([k |-> "match", s |-> s, arms |-> <<
@@ -214,7 +221,7 @@ Gen1(env, ctr, fns, ctx) ==
          env |-> env \o <<[n |-> a, ty |-> ty.ts[1], mut |-> FALSE], [n |-> b, ty |-> ty.ts[2], mut |-> FALSE]>>, ctr |-> ctr + 1]
   ELSE IF c = 20 THEN                                    \* lambda over ints capturing the environment by value
      LET ln == Name("lam", ctr)
-         body == GenE(TInt, Append(env, [n |-> "q", ty |-> TInt, mut |-> FALSE]), fns, 2)
+         body == GenE(TInt, Append(Frozen(env), [n |-> "q", ty |-> TInt, mut |-> FALSE]), fns, 2)
      IN [ss |-> <<Let(ln, [k |-> "lam", ps |-> <<"q">>, ptys |-> <<"int">>, body |-> body])>>,
          env |-> Append(env, [n |-> ln, ty |-> TFn(<<TInt>>, TInt), mut |-> FALSE]), ctr |-> ctr + 1]
   ELSE IF c = 21 /\ FnsRet(fns, TNil) # {} THEN
